@@ -369,7 +369,12 @@ class Pool(localbase):
     def disconnect(pool):
         con = pool.con
         pool.con = None
-        if con is not None: con.close()
+        if con is None: return
+        if pool.pid != os.getpid():  # the connection belongs to the parent process: keep it aside untouched
+            pool.forked_connections.append((con, pool.pid))
+            pool.pid = None
+            return
+        con.close()
 
 class Converter(object):
     EQ = 'EQ'
